@@ -72,9 +72,13 @@ def variants(rng, data):
     # the gzip header's MTIME field is metadata, not content: old (year
     # 2000), zero and "now" must all behave like the plain file
     mt = rng.choice([946684800, 0, None, 1641000000])
+    named = rng.random() < 0.5
     return [('plain', None),
             ('gzip', {'level': rng.choice([1, 6, 9]), 'cuts': [],
-                      'mtime': mt}),
+                      'mtime': mt,
+                      # half of the single-member files carry the original
+                      # file name in their header, as gzip(1) writes them
+                      'with_name': 'x.log' if named else None}),
             ('multi', {'level': rng.choice([1, 6, 9]), 'cuts': cuts,
                        'mtime': rng.choice([946684800, None]),
                        'empty_last': rng.random() < 0.4,
